@@ -2,12 +2,14 @@
 from __future__ import annotations
 
 import ast
+import copy
 import itertools
 
 from .. import AnalysisError
 from ..cfg import Policy
 from ..kinds import UNK, alts, kstr
 from ..loader import walk_local, norm
+from ..resolve import fold
 
 # Inlining policy for the write/maintenance paths: do not descend into progress reporting and the generic read API
 STOP_DEFAULT = {
@@ -1160,3 +1162,127 @@ def full_scans_unfiltered(ctx, chk, rule):
     chk.require(n >= 4, f'expected >= 4 raw full scans of db_object, found {n}')
     if not bad:
         chk.ok(rule, '<package>', f'{n} raw scan(s) of db_object', detail='whole table, ORDER BY hashkey, no parameters', evals=n)
+
+
+# ----------------------------------------------------------------------------------------------------------------------
+# local list builders: the element expressions of a list that a function builds by unconditional straight-line statements
+
+class _Subst(ast.NodeTransformer):
+    def __init__(self, name, repl):
+        self.name, self.repl = name, repl
+
+    def visit_Name(self, node):
+        if node.id == self.name and isinstance(node.ctx, ast.Load):
+            return ast.copy_location(copy.deepcopy(self.repl), node)
+        return node
+
+
+def _subst(expr, name, repl):
+    return ast.fix_missing_locations(_Subst(name, repl).visit(copy.deepcopy(expr)))
+
+
+def list_elements(prog, fn, expr, depth=0):
+    """Element expressions of the list ``expr`` evaluates to at its use site, or None when that is not decidable from the
+    shape of the code.  Accepted: a list/tuple display (starred elements: a name resolved recursively, or a comprehension with one
+    ``for`` over a constant sequence, unrolled); a local name built only by unconditional statements of the function body (at
+    top level or directly inside ``with`` blocks): ``x = <list>``, ``x += <list>``, ``x.append(e)``, ``x.extend(<list>)`` and
+    ``for v in <list>: <only such statements on x>`` (unrolled, ``v`` substituted).  Any other store or mutation of the name
+    (a conditional one, a del, a slice assignment, passing it to a mutating method we do not model) makes the answer None."""
+    if depth > 4:
+        return None
+    if isinstance(expr, (ast.List, ast.Tuple)):
+        out = []
+        for el in expr.elts:
+            if not isinstance(el, ast.Starred):
+                out.append(el)
+                continue
+            v = el.value
+            if isinstance(v, (ast.GeneratorExp, ast.ListComp)) and len(v.generators) == 1 and not v.generators[0].ifs \
+                    and isinstance(v.generators[0].target, ast.Name) and not v.generators[0].is_async:
+                seq = list_elements(prog, fn, v.generators[0].iter, depth + 1)
+                if seq is None:
+                    sv = fold(prog, v.generators[0].iter, fn, {})
+                    if not isinstance(sv, (list, tuple)) or not all(isinstance(c, (str, int, bytes)) for c in sv):
+                        return None
+                    seq = [ast.Constant(value=c) for c in sv]
+                out.extend(_subst(v.elt, v.generators[0].target.id, s) for s in seq)
+                continue
+            sub = list_elements(prog, fn, v, depth + 1)
+            if sub is None:
+                return None
+            out.extend(sub)
+        return out
+    if not isinstance(expr, ast.Name) or fn is None or isinstance(fn.node, ast.Lambda):
+        return None
+    name = expr.id
+
+    def straight(body):
+        for st in body:
+            if isinstance(st, (ast.With, ast.AsyncWith)):
+                yield from straight(st.body)
+            else:
+                yield st
+
+    def mutation(st, cur):
+        """Apply one statement to the current element list; returns (handled, new list or None on undecidable)."""
+        if isinstance(st, ast.AnnAssign) and isinstance(st.target, ast.Name) and st.target.id == name:
+            if st.value is None:
+                return True, cur
+            return True, list_elements(prog, fn, st.value, depth + 1)
+        if isinstance(st, ast.Assign) and any(_binds(t, name) for t in st.targets):
+            if len(st.targets) != 1 or not isinstance(st.targets[0], ast.Name):
+                return True, None
+            return True, list_elements(prog, fn, st.value, depth + 1)
+        if isinstance(st, ast.AugAssign) and isinstance(st.target, ast.Name) and st.target.id == name:
+            add = list_elements(prog, fn, st.value, depth + 1) if isinstance(st.op, ast.Add) else None
+            return True, (None if add is None or cur is None else cur + add)
+        if isinstance(st, ast.Expr) and isinstance(st.value, ast.Call) and isinstance(st.value.func, ast.Attribute) \
+                and isinstance(st.value.func.value, ast.Name) and st.value.func.value.id == name:
+            c = st.value
+            if c.func.attr == 'append' and len(c.args) == 1 and not c.keywords and not isinstance(c.args[0], ast.Starred):
+                return True, (None if cur is None else cur + [c.args[0]])
+            if c.func.attr == 'extend' and len(c.args) == 1 and not c.keywords:
+                add = list_elements(prog, fn, c.args[0], depth + 1)
+                return True, (None if add is None or cur is None else cur + add)
+            return True, None
+        return False, cur
+
+    def mentions_store(node):
+        for n in ast.walk(node):
+            if isinstance(n, ast.Name) and n.id == name and isinstance(n.ctx, (ast.Store, ast.Del)):
+                return True
+            if isinstance(n, ast.Attribute) and isinstance(n.value, ast.Name) and n.value.id == name \
+                    and n.attr in ('append', 'extend', 'insert', 'pop', 'remove', 'clear', 'sort', 'reverse', '__setitem__', '__iadd__'):
+                return True
+            if isinstance(n, (ast.Subscript,)) and isinstance(n.ctx, (ast.Store, ast.Del)) and isinstance(n.value, ast.Name) and n.value.id == name:
+                return True
+        return False
+
+    if name in {a.arg for a in fn.node.args.args + fn.node.args.kwonlyargs + fn.node.args.posonlyargs}:
+        return None
+    cur = None
+    seen_def = False
+    for st in straight(fn.node.body):
+        if st.lineno > getattr(expr, 'lineno', 10 ** 9):
+            break
+        handled, new = mutation(st, cur)
+        if handled:
+            if new is None:
+                return None
+            cur, seen_def = new, True
+            continue
+        if isinstance(st, ast.For) and not st.orelse and isinstance(st.target, ast.Name) and mentions_store(st):
+            seq = list_elements(prog, fn, st.iter, depth + 1)
+            if seq is None or cur is None:
+                return None
+            for s in seq:
+                for inner in st.body:
+                    h, new = mutation(inner, cur)
+                    if not h or new is None:
+                        return None
+                    cur = new
+                cur = [(_subst(e, st.target.id, s) if any(isinstance(n, ast.Name) and n.id == st.target.id for n in ast.walk(e)) else e) for e in cur]
+            continue
+        if mentions_store(st):
+            return None
+    return cur if seen_def else None
